@@ -23,7 +23,7 @@ def expr(it):
         return t
     if f == 'pos':
         return '%%position(%s, %s)' % (t, hex(n))
-    if f == 'off':
+    if f in ('off', 'offk'):
         return '%%offset(%s)' % t
     if f == 'hipos':
         return '%%hi(%%position(%s, %s))' % (t, hex(n))
